@@ -16,6 +16,7 @@ Decides one property on /repo's current working tree:
 import json, os, sys, time, re
 sys.path.insert(0, os.path.dirname(os.path.abspath(__file__)))
 import vlib
+import kernelpath
 from props import PROPS, TRUSTED_COMMON
 
 def main():
@@ -76,6 +77,16 @@ def main():
         cov["axioms_reported_by_Print_Assumptions"] = axioms if axioms else ["none: every theorem is closed under the global context"]
         cov["checker_cmd"] = "make -C coq %s (full .vo build, coqc 8.16.1) && coqc -Q . Bexpr %s (Print Assumptions)" % (cfg["coq"].replace(".v", ".vo"), cfg["coq"])
         cov["hygiene_hits"] = hy
+        if pid == "C20" and not ok:
+            gd = vlib.grammar_diff()
+            if gd:
+                # the structural difference IS the failing input of this structural property
+                failing.append({"source": "structural comparison of the regenerated tables", "clause": "grammar.go and grammar.peg differ", "input": gd})
+        if tier == "thorough" and ok and pok:
+            cok, cax, clog = vlib.coqchk(cfg["coq"])
+            cov["coqchk"] = {"command": "coqchk -silent -o -Q . Bexpr Bexpr." + cfg["coq"].replace(".v", ""), "ok": cok, "axioms": cax}
+            if not cok:
+                problems.append({"kind": "coqchk", "what": cfg["coq"], "detail": clog[-600:]})
         # ---- 2. model + harness
         mok, mlog = vlib.build_model()
         if not mok:
@@ -87,6 +98,7 @@ def main():
     # ---- 3. run (outside the lock)
     total_eval = 0; total_distinct = 0; samples = []; dist = {}; rules = []; mism_all = []; model_lines = 0
     direct = []
+    kernel_cases = 0
     if hok:
         for hp in cfg["harness"]:
             rd = os.path.join(vlib.BUILD, "run", "%s-%s" % (pid, hp) if hp != pid else pid)
@@ -125,6 +137,11 @@ def main():
                 for m in mism:
                     m["harness"] = hp
                 mism_all += mism
+                # kernel path: a sample of the same commands evaluated inside Coq by vm_compute must agree with the extracted code
+                kok, kn, kdetail = kernelpath.run(rd, vlib.COQ, os.path.join(vlib.BUILD, "kernel", pid), want=(400 if tier == "thorough" else 100))
+                kernel_cases += kn
+                if not kok:
+                    problems.append({"kind": "kernel-path", "what": "vm_compute vs extracted model on %s" % hp, "detail": kdetail[-600:]})
     # ---- 4. decide
     known = [k for k in vlib.known_findings() if k["property"] == pid]
     def is_known(key):
@@ -149,6 +166,7 @@ def main():
         "evaluations": total_eval, "distinct_nontrivial": total_distinct, "rule": " || ".join(r for r in rules if r),
         "samples": samples[:12] or [{"note": "no harness cases for this property"}],
         "traces_validated_against_impl": model_lines,
+        "cases_also_evaluated_inside_coq_by_vm_compute": kernel_cases,
         "model_vs_implementation_mismatches": len(mism_all),
         "direct_predicate_violations": len(direct),
         "distribution": dist,
